@@ -630,6 +630,11 @@ func run(c *hc.Ctx) error {
 				cur := showStored(now)
 				if cur != prevStored {
 					acceptedSeen = true
+					// sequentially, what was just saved is the in-memory primary session
+					if after := v.VerifC30Session(); err == nil && now != nil && (after.DC != now.DC || !bytes.Equal(after.AuthKey.Value[:], now.AuthKey) ||
+						!bytes.Equal(after.AuthKey.ID[:], now.AuthKeyID) || after.Salt != now.Salt) {
+						c.Fail("stored-differs-from-primary-session", line, fmt.Sprintf("after notification %d the storage holds %s but c.session is %s", j, cur, showKeySess(after.DC, after.AuthKey, after.Salt)))
+					}
 					if n.cdn || !elig {
 						c.Fail("foreign-notification-changed-storage", line, fmt.Sprintf("notification %d (cdn=%v migrate=%v dc=%d, primary DC %d) changed the stored session to %s", j, n.cdn, n.mig, n.dc, before.DC, cur))
 					}
@@ -936,9 +941,27 @@ func genAgent(r *hc.RNG, primary *int, pool []crypto.AuthKey, depth int) *agent 
 
 func runScripted(c *hc.Ctx) error {
 	r := c.Rng
-	n := c.N(1500, 40000)
+	n := c.N(1500, 15000)
 	var lines, impls []string
+	flush := func() error {
+		outs, err := c.Drv.Batch(lines)
+		if err != nil {
+			return err
+		}
+		for i, o := range outs {
+			if c.Compare(lines[i], impls[i], o) {
+				c.Res.TracesValidated++
+			}
+		}
+		lines, impls = nil, nil
+		return nil
+	}
 	for i := 0; i < n; i++ {
+		if len(lines) >= 2000 {
+			if err := flush(); err != nil {
+				return err
+			}
+		}
 		primary := hc.Pick(r, 0, 2, 2, 3, 5)
 		cur := primary
 		pool := []crypto.AuthKey{genKey(r), genKey(r), genKey(r)}
@@ -1061,16 +1084,7 @@ func runScripted(c *hc.Ctx) error {
 		lines = append(lines, line)
 		impls = append(impls, strings.Join(results, ",")+" "+state)
 	}
-	outs, err := c.Drv.Batch(lines)
-	if err != nil {
-		return err
-	}
-	for i, o := range outs {
-		if c.Compare(lines[i], impls[i], o) {
-			c.Res.TracesValidated++
-		}
-	}
-	return nil
+	return flush()
 }
 
 // runConcurrent lets 2..3 notifications race through the real handler from separate goroutines and asks
@@ -1193,9 +1207,27 @@ func runConcurrent(c *hc.Ctx) error {
 
 func runConns(c *hc.Ctx) error {
 	r := c.Rng
-	n := c.N(1500, 40000)
+	n := c.N(1500, 15000)
 	var lines, impls []string
+	flush := func() error {
+		outs, err := c.Drv.Batch(lines)
+		if err != nil {
+			return err
+		}
+		for i, o := range outs {
+			if c.Compare(lines[i], impls[i], o) {
+				c.Res.TracesValidated++
+			}
+		}
+		lines, impls = nil, nil
+		return nil
+	}
 	for i := 0; i < n; i++ {
+		if len(lines) >= 2000 {
+			if err := flush(); err != nil {
+				return err
+			}
+		}
 		primary := hc.Pick(r, 0, 2, 2, 3, 5)
 		st := &faultyStorage{}
 		v := telegram.VerifC30NewClient(primary, false, st)
@@ -1346,14 +1378,5 @@ func runConns(c *hc.Ctx) error {
 		lines = append(lines, line)
 		impls = append(impls, state)
 	}
-	outs, err := c.Drv.Batch(lines)
-	if err != nil {
-		return err
-	}
-	for i, o := range outs {
-		if c.Compare(lines[i], impls[i], o) {
-			c.Res.TracesValidated++
-		}
-	}
-	return nil
+	return flush()
 }
